@@ -159,6 +159,11 @@ class C17:
         return isinstance(d, dict) and len(d["ids"]) >= 2 and len(d["tl"]) >= 2
 
 
+def check_same(a, b):
+    import check as _ck
+    return _ck.same(a, b)
+
+
 class C20:
     id = "C20"
     chunk = 25
@@ -240,6 +245,13 @@ class C20:
         case["_ts"] = ts
         for t in ts:
             L.append("conf 0 %d %d %d %d %s" % (t, d, pt, len(case["alphas"]), al))
+        # any exponent: the model receives the powers d ** alpha exactly as Python's floats give them (model: nodeScoreW, theorem C20W_bound)
+        from fractions import Fraction
+        blocks = []
+        for a in case["alphas"]:
+            ws = [Fraction(float(dd) ** (a / 100.0)) for dd in range(1, 9)]
+            blocks.append("%d %d %s" % (a, len(ws), " ".join("%d %d" % (w.numerator, w.denominator) for w in ws)))
+        L.append("confw 0 %d %d %d %d %s" % (s, d, pt, len(case["alphas"]), " ".join(blocks)))
         pr = case["prof"]
         L.append(("confp 0 %d %d %d %d %d %s %d %s %d %s" % (s, d, pt, pr["psize"], len(pr["labels"]), " ".join(map(str, pr["labels"])),
                   len(pr["alphas"]), " ".join(map(str, pr["alphas"])), len(pr["tab"]), " ".join("%d %d %d" % tuple(x) for x in pr["tab"]))).replace("  ", " "))
@@ -260,7 +272,8 @@ class C20:
         dump0, conf, sl, dump1, pres1, atrp, sconf = outs[i:i + 7]
         j = i + 7 + 1 + nops + nl + (len(case["nmap"]) if case.get("presort") else 0)
         conf2 = outs[j]
-        per_t = outs[j + 1:-2]
+        per_t = outs[j + 1:-3]
+        confw = outs[-3]
         confp = outs[-2]
         confh = outs[-1]
         fails = []
@@ -325,6 +338,9 @@ class C20:
                             exp = 1.0 if x in reach else 0.0
                             if not approx(v, exp):
                                 fails.append(F("C20.all_equal", node=x, alpha=a, profile=p, expected=exp, got=val))
+        # the same call again (the model is given the powers d ** alpha as exact rationals): same answer as the first call
+        if not check_same(conf, confw):
+            fails.append(F("C20.repeat_call", first=conf, second=confw))
         # time-varying labels and hierarchies (model: ConformityH.lean; theorems C20H_result, C20H_errors)
         if pr["psize"] > len(pr["labels"]) or not pr["alphas"]:
             if confh != "E:VE":
